@@ -1,6 +1,8 @@
 #!/bin/bash
 # like seed_matrix.sh but only for the ids listed in the file given as $1; appends to docs/seed_matrix.txt
 cd /verif
+# the checks rewrite evidence/*.json: keep the clean-tree evidence and put it back afterwards
+rm -rf build/evidence.keep; cp -r evidence build/evidence.keep
 out=docs/seed_matrix.txt
 for id in $(cat $1); do
   d=seeded/$id; p=${id%%-*}
@@ -14,4 +16,5 @@ for id in $(cat $1); do
   git -C /repo checkout -- .
 done
 sort -o $out $out
+rm -rf evidence; mv build/evidence.keep evidence
 echo done
